@@ -46,6 +46,15 @@ struct EvaluatedRow<'a> {
     update_output: bool,
 }
 
+/// Mask selecting the low `bits` bits of a value; all 64 bits for signals that are (at least) 64 bits wide
+fn bit_mask(bits: usize) -> i64 {
+    if bits < 64 {
+        ((1u64 << bits) - 1) as i64
+    } else {
+        -1
+    }
+}
+
 impl EntryIndex {
     pub(crate) fn signal_index(&self) -> usize {
         match self {
@@ -159,7 +168,7 @@ impl<'a> DataRowIteratorTestData<'a> {
                 } => {
                     let signal = &self.signals[*signal_index];
                     let value = match &stmt_entries[*entry_index] {
-                        DataEntry::Number(n) => InputValue::Value(n & ((1 << signal.bits) - 1)),
+                        DataEntry::Number(n) => InputValue::Value(n & bit_mask(signal.bits)),
                         DataEntry::Z => InputValue::Z,
                         _ => unreachable!(),
                     };
@@ -192,14 +201,7 @@ impl<'a> DataRowIteratorTestData<'a> {
                 } => {
                     let signal = &self.signals[*signal_index];
                     let value = match &stmt_entries[*entry_index] {
-                        DataEntry::Number(n) => {
-                            let mask = if signal.bits < 64 {
-                                (1 << signal.bits) - 1
-                            } else {
-                                -1
-                            };
-                            ExpectedValue::Value(n & mask)
-                        }
+                        DataEntry::Number(n) => ExpectedValue::Value(n & bit_mask(signal.bits)),
                         DataEntry::Z => ExpectedValue::Z,
                         DataEntry::X => ExpectedValue::X,
                         _ => unreachable!(),
